@@ -36,10 +36,11 @@ CLAIMED["C01"] = dict(
          "ORDERED EXACTLY-ONCE DELIVERY end to end: for any message list, any initial TSN and any arrival list, "
          "the messages delivered on an ordered stream are exactly the first n ordered messages sent on it, in "
          "order, each once (sender numbering lemma + transport dedupe + stream automaton; 16-bit SSN window "
-         "stated as hypothesis swin, discharged for streams of at most 2^15 messages); str/bytes/empty values "
-         "round-trip through four distinct PPIDs (6 theorems). PARTIAL: unordered channels are covered by the "
-         "integrity and no-duplicate theorems only; 'eventually delivered after the network heals' is observed by "
-         "the two-endpoint scenario oracle.",
+         "stated as hypothesis swin, discharged for streams of at most 2^15 messages); AT MOST ONCE in every mode: "
+         "the deliveries on a stream - ordered or unordered - are the messages of a duplicate-free list of sent "
+         "fragment lists (counting invariant of pop_messages: every chunk is retained or consumed by exactly one "
+         "delivered run); str/bytes/empty values round-trip through four distinct PPIDs (7 theorems). PARTIAL: "
+         "'eventually delivered after the network heals' is observed by the two-endpoint scenario oracle.",
     design_ref="5 / C01",
     note="Network faults are abstracted as an arbitrary arrival list over sent chunks; SACK-path faults cannot "
          "influence what the receiver delivers. Tie: receiver-level differential run (extracted model vs real "
@@ -329,9 +330,12 @@ CLAIMED["C17"] = dict(
          "translation invariant for ALL values (by lia, not enumeration); shift invariance for every delta: the "
          "SCTP receiver (all DATA / FORWARD-TSN event lists: same deliveries at the same steps, SACKs differ only "
          "by the shift, gap blocks identical), the jitter buffer (sequence numbers mod 2^16 and timestamps mod "
-         "2^32) and receiver statistics / reports. PARTIAL: SCTP sender, NACK generator and RTP retransmission "
-         "history are covered only by the metamorphic re-run of the implementation with origins shifted across "
-         "the wrap.",
+         "2^32), receiver statistics / reports, and the SCTP sender (all message / SACK / T3 / transmit histories: "
+         "same congestion state and decisions, outputs' TSNs shifted) - 7 theorems. The NACK generator and the RTP "
+         "retransmission history are characterised exactly for every origin by C11_nack_complete and C11_history. "
+         "PARTIAL: stream sequence number and reconfiguration sequence number origins are covered by the "
+         "metamorphic re-run of the implementation (SSN origins just below the 16-bit wrap with FORWARD-TSN that "
+         "really abandon ordered messages; two-endpoint runs with TSN origins across the wrap), not by a theorem.",
     design_ref="5 / C17",
     note="Gen/Utils.v is validated by value inside Coq (vm_compute) against the Python functions on boundary-biased "
          "pairs each run. Shift theorems are about Model/SctpRecv.v, Model/Jitter.v, Model/Stats.v, each tied to the "
